@@ -88,9 +88,25 @@ def run(repo, rep, tier):
     g = body[0] if body else None
     ok = isinstance(g, ast.If) and len(g.body) == 1 and isinstance(g.body[0], ast.Return) and g.body[0].value is None and not g.orelse
     rep.check('level-filter', 'the filter is the first statement of _print and only returns', ok, g or pr, 'minimum-level filter is not a leading bare return')
+    json_exempt = False
     if ok:
-        want = 'always_print is False and self.get_level(level) < self.__level'
-        rep.check('level-filter', 'filter condition: not always_print and level rank below the minimum', unparse(g.test) == want, g, 'filter condition is `%s`' % unparse(g.test))
+        from sa.abseval import ev as _ev, Unknown as _Unknown
+        rows_bad = []
+        drops_json = False
+        for ap_, js_, rank_, min_ in itertools.product([False, True], [False, True], [0, 1, 2], [0, 1, 2]):
+            env = {'always_print': ap_, 'self.json': js_, 'self.get_level(level)': rank_, 'self.__level': min_}
+            try:
+                got = bool(_ev(g.test, env))
+            except _Unknown as e:
+                raise AnalysisError('level filter condition not interpretable: %s' % e)
+            rep.evals()
+            if not js_ and got != ((ap_ is False) and rank_ < min_):
+                rows_bad.append((ap_, rank_, min_, got))
+            if js_ and got:
+                drops_json = True
+        rep.check('level-filter', 'filter condition: a line is dropped iff it is not always_print and its level ranks below the minimum (text mode, 18 cases)', not rows_bad, g,
+                  'filter condition `%s` is wrong: always_print=%s level rank %s minimum %s -> dropped=%s' % ((unparse(g.test),) + (rows_bad[0] if rows_bad else (None,) * 4)))
+        json_exempt = not drops_json
     others = [n for s in body[1:] for n in ast.walk(s) if isinstance(n, ast.Attribute) and n.attr == '__level']
     rep.check('level-filter', 'nothing after the filter reads the minimum level', not others, others[0] if others else pr, 'minimum level also used after the filter')
     cls = repo.cls('outputbuffer', 'OutputBuffer')
@@ -130,8 +146,11 @@ def run(repo, rep, tier):
         ind = get_kw(n, 'indent')
         rep.check('json', '%s: json.dumps(sort_keys=True)' % func_id(f), sk is not None and unparse(sk) == 'True', n, 'JSON emitted without sort_keys=True: key order depends on construction order')
         rep.check('json', '%s: indent is 4 iff json_print_indent else None' % func_id(f), ind is not None and unparse(ind) == '4 if aconf.json_print_indent else None', n, 'JSON indent argument is %s' % (unparse(ind) if ind is not None else 'missing'))
-        # the dumps result is emitted through out.info exactly here
+        # the document must not be subject to the minimum-level filter (-l warn / -l fail would otherwise drop the whole document)
         par = n._parent
+        ap = get_kw(par, 'always_print') if isinstance(par, ast.Call) else None
+        rep.check('json', '%s: the JSON document is exempt from the minimum-level filter' % func_id(f), json_exempt or (ap is not None and unparse(ap) == 'True'), n,
+                  'the JSON document is emitted with out.info() at level info: with -l warn or -l fail the level filter drops it and stdout is empty (not a JSON document)')
         rep.check('json', '%s: the document is emitted through out.info' % func_id(f), isinstance(par, ast.Call) and unparse(par.func) == 'out.info', n, 'JSON document not emitted through out.info')
     # output(): reset, then one emission, nothing after
     c = CFG(outf, exc_edges=False)
